@@ -117,6 +117,32 @@ pub fn run(r: &mut Report) {
         }
         r.case("timestamps-in-every-notation", json!({"documents": n, "accepted_readings": accepted}), "refused, or accepted and round-tripping", format!("{:?}", bad), bad.is_empty());
     }
+    // the free-form members of the SLSA formats (parameters, environment, buildConfig, recipe arguments / environment) holding every
+    // kind of JSON value - text, objects, lists, whole and fractional numbers at any depth: refused, or accepted WITH a canonical form
+    // that parses back equal
+    {
+        let mut bad: Vec<String> = vec![]; let mut n = 0; let mut accepted = 0;
+        let values = [json!("text"), json!(""), json!({"a": 1}), json!({"timeout_minutes": 1.5}), json!([1, 2.0, 3]), json!(1e3), json!(0.1), json!(-1), json!(null), json!(true), json!({"deep": [{"x": [1.25]}]}), json!([]), json!({})];
+        for v in &values {
+            let docs = [("slsa v0.2 parameters", json!({"builder": {"id": "b"}, "buildType": "t", "invocation": {"configSource": {"uri": "u", "digest": {"sha256": "00"}, "entryPoint": "e"}, "parameters": v, "environment": v}, "materials": []})),
+                        ("slsa v0.2 buildConfig", json!({"builder": {"id": "b"}, "buildType": "t", "buildConfig": v, "materials": []})),
+                        ("slsa v0.1 recipe", json!({"builder": {"id": "b"}, "recipe": {"type": "t", "arguments": v, "environment": v}, "materials": [{"uri": "u"}]}))];
+            for (kind, pd) in &docs {
+                n += 1;
+                for via in ["text", "value"] {
+                    let parsed: Option<PredicateWrapper> = if via == "text" { serde_json::from_str(&pd.to_string()).ok() } else { no_panic(|| PredicateWrapper::try_from_value(pd.clone())).ok().and_then(|x| x.ok()) };
+                    if let Some(p) = parsed {
+                        accepted += 1;
+                        let bytes = no_panic(|| p.clone().into_trait().to_bytes());
+                        let text = match &bytes { Ok(Ok(b)) => String::from_utf8_lossy(b).to_string(), other => format!("<no canonical form: {:?}>", other.as_ref().map(|x| x.as_ref().map(|_| ()).map_err(|e| e.to_string()))) };
+                        let back: Option<PredicateWrapper> = serde_json::from_str(&text).ok().or_else(|| serde_json::from_str::<Value>(&text).ok().and_then(|v| PredicateWrapper::try_from_value(v).ok()));
+                        if back.as_ref() != Some(&p) && bad.len() < 6 { bad.push(format!("{} = {} (read from {}): accepted, canonical form {:?} does not parse back equal", kind, v, via, text.chars().take(120).collect::<String>())); }
+                    }
+                }
+            }
+        }
+        r.case("free-form-members-holding-every-kind-of-value", json!({"documents": n, "accepted_readings": accepted}), "refused, or accepted and round-tripping", format!("{:?}", bad), bad.is_empty());
+    }
     // integer members at the extremes of their types (`definedInMaterial` is an unsigned machine word, `return-value` a signed
     // 32-bit number): the canonical form carries the same digits and parses back to an equal value, bare and inside a statement
     {
